@@ -52,6 +52,11 @@ def run(run):
     rng = run.rng('triples')
     triples = list(itertools.product(axis_values(26), axis_values(12),
                                      axis_values(26)))
+    # a dense neighbourhood of the origin (values that differ by one in one
+    # axis follow each other: anything remembered from the previous call that
+    # is keyed too coarsely shows up as the neighbour's word)
+    triples += [t for t in itertools.product(range(-3, 4), repeat=3)
+                if t not in set(triples)]
     nrand = 20000 if thorough else 300
     words = [1 << k for k in range(64)] + [0, 2 ** 64 - 1] + \
         [((1 << 26) - 1) << 38, ((1 << 12) - 1) << 26, (1 << 26) - 1,
@@ -84,6 +89,25 @@ def run(run):
                            rng.randrange(-2 ** 11, 2 ** 11),
                            rng.randrange(-2 ** 25, 2 ** 25))
                           for _ in range(nrand)]
+        # sibling runs: a position followed by variants that differ in one
+        # axis only (by one, two, the sign, one bit) - consecutive calls
+        for _ in range(nrand // 20 + 8):
+            base = [rng.randrange(-2 ** 25, 2 ** 25),
+                    rng.randrange(-2 ** 11, 2 ** 11),
+                    rng.randrange(-2 ** 25, 2 ** 25)]
+            if rng.random() < 0.5:
+                base[rng.randrange(3)] = rng.choice((-1, -2, 0, 1))
+            mine.append(tuple(base))
+            lim = (2 ** 25, 2 ** 11, 2 ** 25)
+            for _k in range(6):
+                ax = rng.randrange(3)
+                v = list(base)
+                cand = rng.choice((v[ax] + 1, v[ax] - 1, v[ax] - 2, -v[ax],
+                                   ~v[ax], v[ax] ^ (1 << rng.randrange(11))))
+                if -lim[ax] <= cand < lim[ax]:
+                    v[ax] = cand
+                    mine.append(tuple(v))
+                    run.count('position.sibling_calls')
         bad = 0
         for (x, y, z) in mine:
             exp = rw.pack_position(x, y, z, layout)
